@@ -1300,6 +1300,11 @@ struct Judged {
     out_converted: Vec<u32>,
     /// viable candidates with an `out` / `inout` parameter whose argument has a const type
     out_const: Vec<u32>,
+    /// viable candidates that meet a 1-vector (in an argument they receive or in the parameter that receives it): outside
+    /// the property's quantifier ({scalar, 2,3,4-vectors}); the oracle's conversion-quality table says nothing about
+    /// `int1 -> half1` against `int1 -> double` (the code ranks the former Conversion/Expand, the latter
+    /// Conversion/Exact: reading 14 in notes/C16.md), so such a candidate takes no part in the domination judgement
+    off_grid: Vec<u32>,
 }
 
 fn has_vec1(l: Layer) -> bool {
@@ -1383,7 +1388,7 @@ fn bind_templates(c: &Cand, args: &[ETy], explicit: &[Option<Ty>]) -> Option<Vec
 }
 
 fn judge_set(real: &mut Real, cands: &[Cand], args: &[ETy], explicit: &[Option<Ty>]) -> Judged {
-    let mut j = Judged { viable: Vec::new(), exact: Vec::new(), panic: None, out_converted: Vec::new(), out_const: Vec::new() };
+    let mut j = Judged { viable: Vec::new(), exact: Vec::new(), panic: None, out_converted: Vec::new(), out_const: Vec::new(), off_grid: Vec::new() };
     // "a candidate whose parameter types equal the argument types exactly" is judged wherever type equality is what
     // the words say; with 1-vectors (`int` -> `int1` is as good as `int` -> `int`, see notes/C16.md) it is not.
     let judge_exact = !cands.iter().any(|c| c.params.iter().any(|p| has_vec1(p.ty.layer))) && !args.iter().any(|a| has_vec1(a.ty.layer));
@@ -1427,6 +1432,9 @@ fn judge_set(real: &mut Real, cands: &[Cand], args: &[ETy], explicit: &[Option<T
         if params.iter().zip(args).any(|(p, a)| p.io != Io::In && a.ty.mods.0 & 1 != 0) {
             j.out_const.push(c.id);
         }
+        if params.iter().zip(args).any(|(p, a)| has_vec1(p.ty.layer) || has_vec1(a.ty.layer)) {
+            j.off_grid.push(c.id);
+        }
         j.viable.push((c.id, ranks));
     }
     j
@@ -1435,8 +1443,11 @@ fn judge_set(real: &mut Real, cands: &[Cand], args: &[ETy], explicit: &[Option<T
 /// a viable candidate that converts no argument worse than `id` and at least one better (the oracle's own table)
 fn dominated_by(j: &Judged, id: u32) -> Option<u32> {
     let (_, mine) = j.viable.iter().find(|(i, _)| *i == id)?;
+    if j.off_grid.contains(&id) {
+        return None;
+    }
     for (d, theirs) in &j.viable {
-        if *d == id {
+        if *d == id || j.off_grid.contains(d) {
             continue;
         }
         let no_worse = theirs.iter().zip(mine).all(|(t, m)| t <= m);
